@@ -181,6 +181,28 @@ def streams(seed, tier):
     out.append(Stream("constructors-aggregates", "run", "run.check", cases,
                       "ONES/ZEROS/SINE with sizes MIN, negative, 0, positive; SUM/MEAN/LENGTH/SORT on empty, overflowing and NaN/both-zero vectors; ROTATE/APPEND/REMOVE/SET*INSERT/CONTAINS incl. empty vector and empty stack; COUNT/BOOLINDEX on all bool vectors of length 0..3; FROMINT with every count around the stack depth; EQUAL incl. NaN and -0.0; LOOP; BOOLVECTOR.ROTATE and FLOATVECTOR.SUM by name"))
 
+    # 4b. the public vector / io functions that load() does NOT register (INTVECTOR.* and INTVECTOR./ are commented out there;
+    #     input_flush): no program reaches them, they are called directly and compared with the model all the same
+    cases = []
+    k = 0
+    for n2 in range(0, 5):
+        for n1 in range(0, 5):
+            for off in list(range(-5, 6)) + [MIN, MIN + 1, MAX - 1, MAX]:
+                for a, b in zip(int_fillings(rng, n1), int_fillings(rng, n2)):
+                    for fn in ("INTVECTOR.*", "INTVECTOR./"):
+                        st = bystanders(); st["ivec"] = [a, b] + st["ivec"]; st["int"] = [off] + st["int"]
+                        cases.append(sx_str([k % 2, [], state(**st), S(fn)])); k += 1
+    for (a, b, off) in [([-1, 3], [7, MIN, -9, 100], 1), ([-1], [MIN], 0), ([0, 1], [5, 6], 0), ([1, 0], [5, 6], 1), ([-1, -1], [MIN, MIN], 0), ([2], [MIN, MAX], 1)]:
+        for fn in ("INTVECTOR.*", "INTVECTOR./"):
+            for prof in (0, 1):
+                cases.append(sx_str([prof, [], state(ivec=[a, b], int=[off, 9]), S(fn)]))
+    for fn in ("INTVECTOR.*", "INTVECTOR./", "INPUT.FLUSH"):
+        for st in (dict(), dict(ivec=[[1]], int=[0]), dict(ivec=[[1], [2]]), dict(input=[([1], [True]), ([2], [])], ivec=[[1], [2]], int=[0])):
+            cases.append(sx_str([0, [], state(**st), S(fn)]))
+    out.append(Stream("unregistered-public-functions", "callfn", "callfn.check", cases,
+                      "int_vector_multiply / int_vector_divide (public, documented as INTVECTOR.* and INTVECTOR./, not registered) on every pair of lengths 0..4, offsets -5..5 and extreme, "
+                      "boundary fillings incl. i32::MIN / -1 and zero divisors; input_flush"))
+
     # 5. every vector name on random whole states (operand shaping of gen/stepgen.py)
     names = model_names()
     allnames = sorted(names)
